@@ -29,7 +29,7 @@ inductive Tok where
 
 def keywords : List String :=
   ["OPENQASM", "include", "qreg", "creg", "barrier", "barrierp", "gate", "opaque", "if",
-   "measure", "reset", "U", "CX", "pi", "sin", "cos", "tan", "EXP", "ln", "sqrt"]
+   "measure", "reset", "U", "CX", "pi", "sin", "cos", "tan", "exp", "ln", "sqrt"]
 
 def isDigit (c : Char) : Bool := '0' ≤ c && c ≤ '9'
 def isIdStart (c : Char) : Bool := ('a' ≤ c && c ≤ 'z') || ('A' ≤ c && c ≤ 'Z')
